@@ -16,7 +16,7 @@ from .. import bitalg
 from ..astutil import Env, chain, src, walk, const, stmts
 from ..model import Unrecognised
 from ..sorts import Sorter
-from .common import concept_cls, resolve_method
+from .common import concept_cls, resolve_method, subclass_overrides
 from .c13 import name_is
 
 
@@ -33,8 +33,16 @@ def split_closure(node):
 
 def binary(model, R):
     cls = concept_cls(model)
-    for name, op_text, spec in (('join', 'a | b', lambda r: r['a'] | r['b']), ('meet', 'a & b', lambda r: r['a'] & r['b'])):
-        func = resolve_method(model, cls, name)
+    table = {'join': ('a | b', lambda r: r['a'] | r['b']), 'meet': ('a & b', lambda r: r['a'] & r['b'])}
+    targets = [(name, resolve_method(model, cls, name)) for name in ('join', 'meet')]
+    for sub, name, target in subclass_overrides(model, cls, ['join', 'meet', '__or__', '__and__']):
+        base = {'__or__': 'join', '__and__': 'meet'}.get(name, name)
+        if hasattr(target, 'node'):
+            targets.append((base, target))
+        else:
+            R.unknown('BOUNDS', f'{sub.key}.{name}', sub.node, f'{sub.name}.{name} (override)', 'rebinding that is not a method definition')
+    for name, func in targets:
+        op_text, spec = table[name]
         self_, other = func.params[:2]
         env = Env(func)
         rets = [n for n in walk(func.body) if isinstance(n, ast.Return)]
